@@ -19,7 +19,7 @@ import (
 // clear-text ServerKeyExchange). A hand-written decision table says which end
 // must fail and which must complete.
 
-var c27ServerScen = []string{"trusted", "untrusted", "expired", "notyet", "wrongname", "wrongkey", "badsig", "nointer"}
+var c27ServerScen = []string{"trusted", "untrusted", "expired", "notyet", "wrongname", "wrongkey", "badsig", "nointer", "ip_ok", "ip_mismatch", "expired_root", "root_still_valid"}
 var c27ClientScen = []string{"none", "trusted", "untrusted", "expired", "wrongkey", "badsig"}
 
 type c27Scenario struct {
@@ -118,7 +118,7 @@ func genC27(seed uint64, tier string) any {
 		break
 	}
 	sc.Key = keyForSuite(r, suiteByID[sc.Suite], sc.Version)
-	sc.ServerScen = c27ServerScen[r.Pick([]int{9, 1, 1, 1, 1, 2, 2, 1})]
+	sc.ServerScen = c27ServerScen[r.Pick([]int{9, 1, 1, 1, 1, 2, 2, 1, 1, 1, 1, 1})]
 	sc.AuthMode = r.Intn(5)
 	sc.ClientScen = c27ClientScen[r.Pick([]int{2, 3, 1, 1, 2, 2})]
 	sc.ClientKey = []string{"rsa", "p256", "p384", "ed"}[r.Pick([]int{3, 3, 1, 2})]
@@ -140,7 +140,7 @@ func c27Table(sc *c27Scenario) c27Expect {
 	e := c27Expect{Applicable: true}
 	si := suiteByID[sc.Suite]
 	switch sc.ServerScen {
-	case "trusted":
+	case "trusted", "ip_ok", "root_still_valid":
 	case "badsig":
 		if si.Kx == kxRSA {
 			// RSA key exchange carries no server signature; possession is proven by decryption ("wrongkey" covers it)
@@ -232,6 +232,21 @@ func execC27(t *testing.T, scAny any, keepLog bool) *Outcome {
 			}
 		case "nointer":
 			scfg.Certificates = []tls.Certificate{tlsCert(p.Server[kind], false, keyOfKind[kind])}
+		case "ip_ok":
+			// the client addresses the server by an IP literal that the certificate lists
+			scfg.Certificates = []tls.Certificate{tlsCert(p.ServerIP[kind], true, keyOfKind[kind])}
+			ccfg.ServerName = "10.1.2.3"
+		case "ip_mismatch":
+			// IP-literal server name, certificate valid for the DNS name only
+			ccfg.ServerName = "10.1.2.3"
+		case "expired_root", "root_still_valid":
+			c := tls.Certificate{Certificate: [][]byte{p.ServerShortRoot[kind].DER, p.ShortInter.DER}, PrivateKey: kit.TLSKey(keyOfKind[kind])}
+			scfg.Certificates = []tls.Certificate{c}
+			ccfg.RootCAs = p.ShortRootPool
+			if sc.ServerScen == "expired_root" {
+				ccfg.Time = skew(60 * 24 * time.Hour) // the trust anchor has expired, leaf and intermediate have not
+				o.count("fault.clock_skew_client", 1)
+			}
 		}
 		ck := sc.ClientKey
 		var ccert *tls.Certificate
